@@ -136,6 +136,15 @@ Example history_hypotheses_satisfiable :
   /\ Inv sym_kern svalid (fun _ => False) (fun _ => True) (fun _ _ => True) (fun _ _ => True) (fun _ _ => True) heap1.
 Proof. split; [exact hist_good_ok | exact heap1_inv]. Qed.
 
+(* ... also on a heap with a KroneckerProductLinearOperator over two dense factors (the class overrides the cached
+   protocol methods and delegates to its factors): queries under two settings regimes, on the product and on a
+   factor, and an add_low_rank whose roots are compatible factor by factor *)
+Example history_hypotheses_satisfiable_kron :
+  good_run sym_kern fl_pinned scompat (fun _ => False) (fun _ => True) (fun _ _ => True) (fun _ _ => True) (fun _ _ => True)
+           (st_default, heap_kron) hist_kron
+  /\ Inv sym_kern svalid (fun _ => False) (fun _ => True) (fun _ _ => True) (fun _ _ => True) (fun _ _ => True) heap_kron.
+Proof. split; [exact hist_kron_ok | exact heap_kron_inv]. Qed.
+
 (* ---------------------------------------------------------------- where the pinned code falsifies the statement *)
 
 (* add_low_rank with the default methods on a small matrix: self's root is the (triangular) Cholesky factor, the
